@@ -115,7 +115,7 @@ impl Property for C03 {
     const ID: &'static str = "C03";
 
     fn rule() -> String {
-        "(i) proptest-generated sorted stores: 1-3 sort keys over unsigned/signed/array properties, keys built from a shared pool (shared prefixes shorter/equal/longer than the inline prefix, 0x00/0xff, empty key, lengths to 65 KiB), inline prefix 0..31, plain and indexed stores, 1..600 distinct keys (thousands in the thorough tier), 1-4 windows; probes = present keys (all or 48 sampled per window) and absent keys derived from present ones (append 0x00 / drop last byte / increment last byte / +-1 / extremes). Oracle: stored order is non-decreasing under the reader's comparison and equals the model's independently sorted order; find() with ordered()=true and =false returns an entry carrying the key iff the model has the key inside the window, and both modes agree. (ii) the search itself exhaustively: every strictly increasing sequence shape of n=0..12 entries x every window (offset,count) x every probe position (each element, each gap, below, above) x both modes through RangeTrait::find on EntryRange. Non-trivial (i) = >=3 keys with two sharing the inline prefix and differing after it, or a key that is a proper prefix of another, or a multi-property key, or a window not starting at 0; (ii) every n>=1; distinct by (classes, schema, key count).".into()
+        "(i) proptest-generated sorted stores: 1-3 sort keys over unsigned/signed/array properties, keys built from a shared pool (shared prefixes shorter/equal/longer than the inline prefix, 0x00/0xff, empty key, lengths to 65 KiB), inline prefix 0..31, plain and indexed stores, 1..600 distinct keys (thousands in the thorough tier), 1-4 windows; probes = present keys (all or 48 sampled per window) and absent keys derived from present ones (append 0x00 / drop last byte / increment last byte / +-1 / extremes). Oracle: stored order is non-decreasing under the reader's comparison and equals the model's independently sorted order; find() with ordered()=true and =false returns an entry carrying the key iff the model has the key inside the window, and both modes agree. (ii) the search itself exhaustively: every strictly increasing sequence shape of n=0..12 entries x every window (offset,count) x every probe position (each element, each gap, below, above) x both modes through RangeTrait::find on EntryRange. Non-trivial (i) = >=3 keys with two sharing the inline prefix and differing after it, or a key that is a proper prefix of another, or a multi-property key, or a window not starting at 0; (ii) every n>=1; distinct by (classes, schema, key count). Values are also looked up through the library's PropertyCompare on ONE column the store is not sorted on: the answer must be the first entry of the window carrying the value (the comparator announces an unordered column, so the search is linear).".into()
     }
 
     fn cases(tier: Tier) -> u32 {
